@@ -99,6 +99,42 @@ def latch(ck, F, E):
                 ok = True
         ck.require(ok, "C19:LATCH:%s" % fn.split("::")[-1], "latch discipline",
                    "latest_error = Some(..) exactly on the Err arm", "%s does not latch the error exactly on its Err arm" % fn, b.span)
+    # the entry points assert that no error is latched: the assertion fires on `latest_error.is_some()`, not the other way round
+    # (a flipped test traps on every ordinary call and lets the protocol violation through)
+    from lib import bool_switch_true_target
+    n_assert = 0
+    for fn in ("JsInterpreter::start_evaluating", "JsInterpreter::continue_evaluating"):
+        b = F.one(fn, "abasic_web")
+        if b is None:
+            continue
+        for c in b.calls():
+            nm = c.callee.split("::")[-1]
+            if nm not in ("is_none", "is_some") or "latest_error" not in show(b.expr(c.args[0])) or c.target is None:
+                continue
+            if b.term(c.target)["k"] != "switch":
+                continue
+            ft = bool_switch_true_target(b, c.target)
+            if not ft:
+                continue
+
+            def panics(start):
+                for x in sorted(b.blocks_reachable_from(start) | {start}):
+                    if not b.dominates(start, x):
+                        continue
+                    cc = b.call_at(x)
+                    if cc is not None and "panicking" in cc.callee and cc.target is None:
+                        return True
+                return False
+            pf, pt = panics(ft[0]), panics(ft[1])      # (false target, true target)
+            if not (pt or pf):
+                continue
+            n_assert += 1
+            good = (nm == "is_none" and pf and not pt) or (nm == "is_some" and pt and not pf)
+            ck.require(good, "C19:LATCH:assert-polarity:%s" % fn.split("::")[-1], "latch discipline",
+                       "%s panics exactly when an error is still latched" % fn.split("::")[-1],
+                       "%s asserts the opposite of `no error is latched`: it traps whenever the page calls it in the ordinary way "
+                       "(latch empty) and carries on when the page forgot to take a latched error" % fn, c.span)
+    ck.floor("C19.latch assertions in the adapter's entry points", n_assert, 2)
     tk = F.one("JsInterpreter::take_latest_error", "abasic_web")
     if tk is not None:
         ok = any(c.callee.endswith("Option::take") or (c.callee.endswith("mem::take") and "latest_error" in show(tk.expr(c.args[0])))
